@@ -132,6 +132,18 @@ func c11r5Arith(e ast.Expr, leaf map[string]string) (string, error) {
 
 // c11r5PathCond: the conditions (with polarity) of the if statements enclosing the first call of `key` in body;
 // found=false when there is none. A `return` textually before the call on the enclosing path makes it unsupported.
+func c11r5CondKey(e ast.Expr) string {
+	switch x := e.(type) {
+	case *ast.ParenExpr:
+		return c11r5CondKey(x.X)
+	case *ast.BinaryExpr:
+		if x.Op == token.NEQ || x.Op == token.EQL {
+			return exprKey(x.X) + x.Op.String() + exprKey(x.Y)
+		}
+	}
+	return exprKey(e)
+}
+
 type c11r5Guard struct {
 	cond string
 	then bool
@@ -143,7 +155,7 @@ func c11r5PathCond(body []ast.Stmt, key string) (gs []c11r5Guard, found bool, er
 		case *ast.IfStmt:
 			if len(callsTo(s.Body, key)) > 0 {
 				inner, _, e := c11r5PathCond(s.Body.List, key)
-				return append([]c11r5Guard{{exprKey(s.Cond), true}}, inner...), true, e
+				return append([]c11r5Guard{{c11r5CondKey(s.Cond), true}}, inner...), true, e
 			}
 			if s.Else != nil && len(callsTo(s.Else, key)) > 0 {
 				eb, ok := s.Else.(*ast.BlockStmt)
@@ -151,7 +163,7 @@ func c11r5PathCond(body []ast.Stmt, key string) (gs []c11r5Guard, found bool, er
 					return nil, true, fmt.Errorf("%s under else-if", key)
 				}
 				inner, _, e := c11r5PathCond(eb.List, key)
-				return append([]c11r5Guard{{exprKey(s.Cond), false}}, inner...), true, e
+				return append([]c11r5Guard{{c11r5CondKey(s.Cond), false}}, inner...), true, e
 			}
 			ret := false
 			ast.Inspect(s, func(n ast.Node) bool {
